@@ -11,6 +11,8 @@ to the Lean model (lean/ThermoVerif/Model/Unifac.lean, Driver/C16.lean) as param
 Case language (case.ops):
   obj <U|D|N|I> <chem,chem,...>        make the model object for that tuple (→ driver `tab …`)
   new <csv>                            caller's float ndarray                → id
+  newt <i8|i4|f4|f8s|f8ro> <csv>       caller's ndarray in another representation (int64, int32, float32, strided float64
+                                       view, read-only float64) holding these values → id   (driver: `newo` / `new`)
   call nd <id> <T> | call seq <csv> <T>   Gamma(x, T)
   f <id> <T>                           Gamma.f(x, T, *Gamma.args)
   gd <csv x> <T> <csv d> <h>           Gibbs–Duhem probe: Gamma at x±h·d (two `call seq` lines for the model)
@@ -30,7 +32,8 @@ LEAN_MODULES = ['ThermoVerif.Props.C16']
 RULE = ('a case = one set of 2-6 chemicals (0-2 of them without functional groups; pool of 24 with / 8 without) and one '
         'model class (UNIFAC, Dortmund, NIST, ideal), evaluated through the real objects at every simplex vertex, at '
         'near-vertices (1-x_i in 1e-12..1e-6), trace compositions, random interior points, T in [250, 450] K, as float '
-        'ndarray (same array reused over several calls), as list, through .f(x, T, *args), and for permuted chemical tuples '
+        'ndarray (same array reused over several calls), as list, as integer-typed (vertices), float32, strided and read-only '
+        'ndarrays, through .f(x, T, *args), and for permuted chemical tuples '
         '(all permutations up to 4 chemicals in the thorough tier, sampled otherwise) at the correspondingly permuted '
         'compositions; further model objects over the same members-with-groups in the same relative order with the members '
         'without groups dropped / added / in front / in between / behind (each case starts from empty instance caches, so the '
@@ -109,11 +112,15 @@ def setup():
     for k in 'UDN':
         G = CLASSES[k](chems)
         G([0.5, 0.25, 0.25], 300.)
+        for code in ('i8', 'i4', 'f4', 'f8s', 'f8ro'):
+            a = make_typed(code, [1, 0, 0] if code[0] == 'i' else [0.5, 0.25, 0.25])
+            try: G.f(a, 300., *G.args)
+            except Exception: pass
     eq.IdealActivityCoefficients(chems).f()
 
 
 def budget(tier):
-    return {'quick': dict(seconds=70, cases=1600, shrink_s=20, search_s=10),
+    return {'quick': dict(seconds=70, cases=1000, shrink_s=20, search_s=10),
             'thorough': dict(seconds=480, cases=16000, shrink_s=40, search_s=30)}[tier]
 
 
@@ -164,6 +171,21 @@ def xsum0_safe(kind):
 # --------------------------------------------------------------------------
 # helpers
 # --------------------------------------------------------------------------
+
+OTHER_DTYPES = {'i8': 'int64', 'i4': 'int32', 'f4': 'float32'}       # np.asarray(x, float) copies these
+
+
+def make_typed(code, vals):
+    if code in OTHER_DTYPES:
+        return np.array(vals, dtype=OTHER_DTYPES[code])
+    if code == 'f8s':                      # float64, non-contiguous view (same object through np.asarray)
+        base = np.zeros(2 * len(vals)); base[::2] = vals
+        return base[::2]
+    if code == 'f8ro':                     # float64, read-only
+        a = np.array(vals, float); a.setflags(write=False)
+        return a
+    raise ValueError(code)
+
 
 def fl(tok):  # csv of fbits → list of floats
     return [] if tok == '-' else [from_fbits(t) for t in tok.split(',')]
@@ -467,6 +489,10 @@ class Session:
                       f'{type(G).__name__}{self.names}: the caller\'s composition was {before.tolist()} before the call and '
                       f'{after.tolist()} after it', i)
         scalar = not isinstance(res, np.ndarray)
+        if not scalar and res.dtype != np.float64:
+            self.fail(f'result-dtype:{label}/{form}',
+                      f'{type(G).__name__}{self.names}: called with a {getattr(arg, "dtype", type(arg).__name__)} composition '
+                      f'{before.tolist()} the {"object" if form == "call" else "functional"} form returns a {res.dtype} array {res.tolist()}', i)
         try:
             g = np.full(len(before), float(res)) if scalar else np.array(res, float, copy=True).ravel()
         except Exception:
@@ -501,8 +527,9 @@ class Session:
                         self.fail(f'pure-limit-trend:{label}',
                                   f'{type(G).__name__}{self.names}: x[{self.names[j]}]={xj!r} but gamma={g[j]!r}', i)
             # the functional form and the object form are the same function
+            twin = np.array(arg, copy=True) if isinstance(arg, np.ndarray) else np.array(before)   # same dtype as the argument
             ok, other = self.guarded(i, label, 'the other calling form',
-                                     (lambda: G.f(np.array(before), T, *G.args)) if form == 'call' else (lambda: G(np.array(before), T)))
+                                     (lambda: G.f(twin, T, *G.args)) if form == 'call' else (lambda: G(twin, T)))
             if ok: self.check_fresh(i, label, other, 'the other calling form')
             if ok and not same_bits(other, g):
                 self.fail(f'f-form:{label}',
@@ -623,6 +650,15 @@ class Session:
             a = np.array(fl(t[1]), float)
             self.arrays.append(a)
             self.emit(op, f'id={len(self.arrays) - 1}')
+        elif k == 'newt':
+            # the caller's array in another representation: integer / float32 dtype, strided view, read-only
+            vals = fl(t[2])
+            a = make_typed(t[1], vals)
+            if not np.array_equal(np.asarray(a, float), np.array(vals, float)):
+                raise ValueError(f'values {vals} are not representable as {t[1]}')
+            self.arrays.append(a)
+            self.tags.add('dtype:' + t[1])
+            self.emit(('newo ' if t[1] in OTHER_DTYPES else 'new ') + t[2], f'id={len(self.arrays) - 1}')
         elif k == 'call':
             T = from_fbits(t[3])
             arg = self.arrays[int(t[2])] if t[1] == 'nd' else fl(t[2])
@@ -835,10 +871,19 @@ def gen_case(rng, tier, kind=None, names=None):
     if tier == 'quick' and n > 3: verts = rng.sample(verts, 3)
     for i in verts:
         e = [1.0 if j == i else 0.0 for j in range(n)]
-        if rng.random() < 0.5:
+        r = rng.random()
+        if r < 0.3:
             ops.append(f'new {csv(e)}'); ops.append(f'call nd {nid} {fbits(T)}'); nid += 1
-        else:
+        elif r < 0.55:
             ops.append(f'call seq {csv(e)} {fbits(T)}')
+        else:
+            # a vertex written with whole numbers (integer dtype), or another array representation
+            code = rng.choice(['i8', 'i8', 'i4', 'f4', 'f8s', 'f8ro'])
+            ops.append(f'newt {code} {csv(e)}')
+            forms = rng.choice([['f'], ['call'], ['f', 'call'], ['call', 'f']])
+            for fm in forms:
+                ops.append(f'f {nid} {fbits(T)}' if fm == 'f' else f'call nd {nid} {fbits(T)}')
+            nid += 1
     points = []
     for _ in range(rng.randrange(2, 5)):
         x = simplex_point(rng, n, rng.choice(['uniform', 'uniform', 'trace', 'near-vertex', 'sparse']))
@@ -854,6 +899,19 @@ def gen_case(rng, tier, kind=None, names=None):
             ops.append(f'call seq {csv(x)} {fbits(Tx)}')
         else:
             ops.append(f'new {csv(x)}'); ops.append(f'f {nid} {fbits(Tx)}'); ops.append(f'call nd {nid} {fbits(Tx)}'); nid += 1
+    # interior points in other array representations (float32 needs values it can hold: dyadic fractions)
+    for _ in range(rng.randrange(0, 3)):
+        code = rng.choice(['f4', 'f8s', 'f8ro'])
+        if code == 'f4':
+            cuts = sorted(rng.randrange(0, 65) for _ in range(n - 1))
+            x = [(b - a) / 64.0 for a, b in zip([0] + cuts, cuts + [64])]
+        else:
+            x = simplex_point(rng, n, rng.choice(['uniform', 'trace', 'sparse']))
+        Tx = rand_T(rng)
+        ops.append(f'newt {code} {csv(x)}')
+        for fm in rng.choice([['f'], ['call'], ['f', 'call'], ['call', 'f']]):
+            ops.append(f'f {nid} {fbits(Tx)}' if fm == 'f' else f'call nd {nid} {fbits(Tx)}')
+        nid += 1
     for _ in range(rng.randrange(1, 3)):
         ops.append(gd_op(rng, n, rand_T(rng)))
     ng = sum(1 for m in names if m in GROUPED)        # members with groups (for every class of the pool)
@@ -923,6 +981,11 @@ def corpus():
                 if len(tup) == 2: x = [v / 0.8 for v in x]
                 ops += [f'obj {k} {",".join(tup)}', f'call seq {csv(x)} {fbits(330.0)}']
             cs.append(Case(ops))
+    for k in 'UDNI':
+        cs.append(Case([f'obj {k} Water,Ethanol,Acetone,Hexane', f'newt i8 {csv([1, 0, 0, 0])}', f'f 0 {fbits(250.0)}', f'call nd 0 {fbits(250.0)}',
+                        f'newt i4 {csv([0, 0, 1, 0])}', f'call nd 1 {T}', f'f 1 {T}',
+                        f'newt f4 {csv([0.25, 0.5, 0.125, 0.125])}', f'f 2 {T}', f'call nd 2 {T}',
+                        f'newt f8s {csv([0.25, 0.5, 0.125, 0.125])}', f'f 3 {T}', f'newt f8ro {csv([0.1, 0.2, 0.3, 0.4])}', f'call nd 4 {T}', f'f 4 {T}']))
     cs.append(Case(['obj I Water,Ethanol', f'call seq {half},{half} {T}', f'new {half},{half}', f'call nd 0 {T}', f'f 0 {T}',
                     f'phi {half},{half} {T} {fbits(101325.0)}', f'pcf {T} {fbits(101325.0)}', 'idealf']))
     return cs
